@@ -19,6 +19,7 @@ import (
 	"encoding/json"
 	"fmt"
 	"os"
+	"path/filepath"
 	"runtime"
 	"sort"
 	"strings"
@@ -760,8 +761,36 @@ func genHonest(c *core.Ctx) error {
 	return nil
 }
 
+// runCorpus replays the minimised past disagreements kept in /verif/corpus/C10
+// (witnesses of the defects found so far) before anything is generated.
+func runCorpus(c *core.Ctx) {
+	exe, err := os.Executable()
+	if err != nil {
+		return
+	}
+	dir := filepath.Join(filepath.Dir(filepath.Dir(exe)), "corpus", "C10")
+	if d := os.Getenv("VERIF_CORPUS"); d != "" {
+		dir = d
+	}
+	files, _ := filepath.Glob(filepath.Join(dir, "*.json"))
+	sort.Strings(files)
+	for _, f := range files {
+		raw, err := os.ReadFile(f)
+		if err != nil {
+			continue
+		}
+		c.OracleCheck()
+		c.Evaluated(1)
+		c.Count("corpus")
+		if err := replay(json.RawMessage(raw)); err != nil {
+			c.OracleFail("c10-corpus", fmt.Sprintf("corpus case %s: %v", filepath.Base(f), err), json.RawMessage(raw))
+		}
+	}
+}
+
 func gen(c *core.Ctx) error {
 	peer.Quiet()
+	runCorpus(c)
 	bt = &batcher{c: c, n: 6}
 	genNegotiate(c)
 	if err := genHonest(c); err != nil {
